@@ -855,11 +855,12 @@ static int cli_cmd(bloc::Parser& p, bloc::Context& ctx, std::list<const bloc::St
   if (c != CMD_unknown && t->code == TOKEN_KEYWORD)
   {
     /* a word that is followed by an assignment, a type declaration or a
-     * member operator is the name of a variable, not a command */
+     * member operator is the name of a variable, not a command; followed by
+     * an argument list it is the call of a function */
     p.pop();
     int next = p.front()->code;
     p.push(t);
-    if (next == '=' || next == TOKEN_ASSIGN || next == ':' || next == '.')
+    if (next == '=' || next == TOKEN_ASSIGN || next == ':' || next == '.' || next == '(')
       c = CMD_unknown;
   }
   switch (c)
